@@ -83,7 +83,7 @@ class SimSocket(object):
             run.log([2, data])
         # the errno and the text of the failure vary from one fault to the next (deterministically): a reset, an
         # interrupted call, a broken pipe, a full buffer, and messages containing format characters
-        k = (run.n_sendall + len(data)) % len(OS_ERRORS)
+        k = (run.n_sendall + len(data) + run.salt) % len(OS_ERRORS)
         if fault == "oserr":
             raise _socket.error(*OS_ERRORS[k])
         raise RuntimeError(EXC_TEXTS[k % len(EXC_TEXTS)])
@@ -103,7 +103,7 @@ class SimSocket(object):
             return n
         if kind == "eof":
             return 0
-        k = (self.run.pos + self.run.n_sendall) % len(OS_ERRORS)
+        k = (self.run.pos + self.run.n_sendall + self.run.salt) % len(OS_ERRORS)
         if kind == "oserr":
             raise _socket.error(*OS_ERRORS[k])
         raise RuntimeError(EXC_TEXTS[k % len(EXC_TEXTS)])
@@ -175,6 +175,7 @@ class Run(object):
         self.wfaults = list(sc.get("wfaults", []))
         self.keys = list(sc.get("keys", []))
         self.n_sendall = 0
+        self.salt = sc.get("salt", 0)    # varies which errno / error text a fault uses
         self.expect_request = True
         self.request = None
         self.clock = Clock()
